@@ -318,6 +318,7 @@ package fox
 //@   ensures quiet: txnQuiet(txn)
 
 //@ func (*Txn).Route props C04,C06 partial
+//@   assert-at call (roots).lookup#1 : own-root: arg_r == txn.rootTxn.root && arg_t == txn.rootTxn.tree
 //@   requires txn != nil && txn.fox != nil && (txn.rootTxn != nil ==> txn.rootTxn.tree != nil)
 //@   assume-at call (*cTx).resetNil#1 : pool-discipline: c != nil && c.params != nil && c.tsrParams != nil && c.skipNds != nil
 //@   panics-when txn.rootTxn == nil
@@ -326,6 +327,7 @@ package fox
 //@   ensures own-root: txn.rootTxn == old(txn.rootTxn) && txn.rootTxn.root == old(txn.rootTxn.root) && txn.rootTxn.size == old(txn.rootTxn.size)
 
 //@ func (*Txn).Reverse props C04,C06 partial
+//@   assert-at call (roots).lookup#1 : own-root: arg_r == txn.rootTxn.root && arg_t == txn.rootTxn.tree
 //@   requires txn != nil && txn.fox != nil && (txn.rootTxn != nil ==> txn.rootTxn.tree != nil)
 //@   assume-at call (*cTx).resetNil#1 : pool-discipline: c != nil && c.params != nil && c.tsrParams != nil && c.skipNds != nil
 //@   panics-when txn.rootTxn == nil
@@ -334,6 +336,7 @@ package fox
 //@   ensures own-root: txn.rootTxn == old(txn.rootTxn) && txn.rootTxn.root == old(txn.rootTxn.root) && txn.rootTxn.size == old(txn.rootTxn.size)
 
 //@ func (*Txn).Lookup props C04,C06,C12 partial
+//@   assert-at call (roots).lookup#1 : own-root: arg_r == txn.rootTxn.root && arg_t == txn.rootTxn.tree
 //@   requires txn != nil && txn.fox != nil && r != nil && r.URL != nil && (txn.rootTxn != nil ==> txn.rootTxn.tree != nil)
 //@   assume-at call (*cTx).resetWithWriter#1 : pool-discipline: c != nil && c.params != nil && c.tsrParams != nil && c.skipNds != nil
 //@   panics-when txn.rootTxn == nil
